@@ -163,6 +163,239 @@ def _cfg_node_of(fn, call):
     return None
 
 
+_VIEW_CALLS = {"sorted", "reversed", "list", "tuple"}
+
+
+def _view_base(e):
+    """`e` denotes (a re-ordering of) a subsequence of a local list L: L, L[a:b], sorted(L), list(L) ... -> 'L'."""
+    while True:
+        if isinstance(e, ast.Name):
+            return e.id
+        if isinstance(e, ast.Subscript) and isinstance(e.slice, ast.Slice):
+            e = e.value
+            continue
+        if isinstance(e, ast.Call) and isinstance(e.func, ast.Name) and e.func.id in _VIEW_CALLS and len(e.args) == 1 \
+                and not any(isinstance(a_, ast.Starred) for a_ in e.args) and all(k.arg == "key" or k.arg == "reverse"
+                                                                                  for k in e.keywords):
+            e = e.args[0]
+            continue
+        return None
+
+
+def _list_feeds(fn, lname):
+    """Every use of the local name `lname` in fn, classified.  The list may only be born empty, grow by
+    `L.append(X)` statements and be narrowed / re-ordered by `L = <view of L>` or `L = [x for x in <view of L> if c]`;
+    it may be iterated, measured and tested.  Anything else (extend, +=, item stores, escapes into calls, nested
+    functions, returns) makes its contents undecidable here -> AnalysisError.  Returns the append calls."""
+    parent = {}
+    for p in ast.walk(fn.node):
+        for ch in ast.iter_child_nodes(p):
+            parent[id(ch)] = p
+    if lname in fn.params:
+        raise AnalysisError("%s: the list %s is a parameter; cannot tell what it holds" % (short(fn), lname))
+    appends = []
+
+    def is_empty_list(v):
+        return (isinstance(v, ast.List) and not v.elts) or \
+            (isinstance(v, ast.Call) and isinstance(v.func, ast.Name) and v.func.id == "list" and not v.args and not v.keywords)
+
+    def is_self_narrowing(v):
+        if _view_base(v) == lname:
+            return True
+        if isinstance(v, ast.ListComp) and len(v.generators) == 1 and not v.generators[0].is_async:
+            g = v.generators[0]
+            return isinstance(g.target, ast.Name) and isinstance(v.elt, ast.Name) and v.elt.id == g.target.id \
+                and _view_base(g.iter) == lname
+        return False
+
+    def top_of_view(x):
+        # climb through slices / sorted() ... wrapped around the name
+        while True:
+            p = parent.get(id(x))
+            if isinstance(p, ast.Subscript) and p.value is x and isinstance(p.slice, ast.Slice):
+                x = p
+            elif isinstance(p, ast.Call) and isinstance(p.func, ast.Name) and p.func.id in _VIEW_CALLS and len(p.args) == 1 \
+                    and p.args[0] is x:
+                x = p
+            else:
+                return x, p
+
+    for x in ast.walk(fn.node):
+        if not (isinstance(x, ast.Name) and x.id == lname):
+            continue
+        # inside a nested def / lambda: give up
+        q = parent.get(id(x))
+        while q is not None and q is not fn.node:
+            if isinstance(q, (ast.FunctionDef, ast.AsyncFunctionDef, ast.Lambda, ast.ClassDef)):
+                raise AnalysisError("%s: the list %s is used inside a nested function" % (short(fn), lname))
+            q = parent.get(id(q))
+        p = parent.get(id(x))
+        if isinstance(x.ctx, ast.Store):
+            if isinstance(p, ast.Assign) and len(p.targets) == 1 and p.targets[0] is x and \
+                    (is_empty_list(p.value) or is_self_narrowing(p.value)):
+                continue
+            raise AnalysisError("%s: cannot follow what is stored into the list %s at line %s" % (
+                short(fn), lname, getattr(x, "lineno", "?")))
+        if not isinstance(x.ctx, ast.Load):
+            raise AnalysisError("%s: the list %s is deleted" % (short(fn), lname))
+        # L.append(X) as a statement
+        if isinstance(p, ast.Attribute) and p.value is x:
+            c = parent.get(id(p))
+            if p.attr == "append" and isinstance(c, ast.Call) and c.func is p and len(c.args) == 1 and not c.keywords \
+                    and not isinstance(c.args[0], ast.Starred) and isinstance(parent.get(id(c)), ast.Expr):
+                appends.append(c)
+                continue
+            if p.attr in ("index", "count", "copy") and isinstance(c, ast.Call) and c.func is p:
+                continue
+            raise AnalysisError("%s: cannot follow %s.%s" % (short(fn), lname, p.attr))
+        top, tp = top_of_view(x)
+        if isinstance(tp, (ast.For, ast.AsyncFor)) and tp.iter is top:
+            continue
+        if isinstance(tp, ast.comprehension) and tp.iter is top:
+            continue        # reading it in a comprehension (incl. the self-narrowing one)
+        if isinstance(tp, ast.Assign) and tp.value is top and len(tp.targets) == 1 and isinstance(tp.targets[0], ast.Name) \
+                and tp.targets[0].id == lname:
+            continue
+        if isinstance(tp, ast.Call) and isinstance(tp.func, ast.Name) and tp.func.id in ("len", "bool") and top in tp.args:
+            continue
+        if isinstance(tp, (ast.If, ast.While, ast.IfExp)) and tp.test is top:
+            continue
+        if isinstance(tp, ast.UnaryOp) and isinstance(tp.op, ast.Not):
+            continue
+        if isinstance(tp, ast.BoolOp):
+            continue
+        if isinstance(tp, ast.Compare) and all(isinstance(o, (ast.Eq, ast.NotEq, ast.Is, ast.IsNot)) for o in tp.ops):
+            continue
+        raise AnalysisError("%s: the list %s escapes at line %s; cannot tell what it holds" % (
+            short(fn), lname, getattr(x, "lineno", "?")))
+    return appends
+
+
+def carried_sources(fn, node, exprs, depth=3):
+    """Reaching definitions through `L.append((a, b, c))` + `for (x, y, z) in L`.
+
+    For each expression of `exprs` (evaluated at CFG node `node`) that is a plain name bound only by the target of a
+    for-loop over (a view of) a local list, step back to the element expression at the append statement.  Returns the
+    alternatives [[(node_i, expr_i) for each expr], ...] - one alternative per combination of append statements
+    (names unpacked by the same loop head step back to the same append).  Names not bound by a loop stay (node, expr).
+    Shapes that cannot be followed raise AnalysisError (fail closed)."""
+    cfg = fn.cfg()
+    rd = C.reaching_defs(cfg)
+    per = []
+    for e in exprs:
+        hit = None
+        if isinstance(e, ast.Name):
+            defs = rd.get(node.id, {}).get(e.id, frozenset())
+            dn = [cfg.nodes[d] for d in defs if d != C.PARAM_DEF]
+            heads = [d for d in dn if d.kind == "iter"]
+            if heads and (len(heads) != len(defs)):
+                raise AnalysisError("%s: %s is bound by a loop and by something else" % (short(fn), e.id))
+            if heads:
+                if len(heads) != 1:
+                    raise AnalysisError("%s: %s is bound by several loops" % (short(fn), e.id))
+                h = heads[0]
+                tgt = h.ast.target
+                if isinstance(tgt, ast.Name):
+                    k = None
+                elif isinstance(tgt, (ast.Tuple, ast.List)) and all(isinstance(t_, ast.Name) for t_ in tgt.elts):
+                    k = [t_.id for t_ in tgt.elts].index(e.id)
+                else:
+                    raise AnalysisError("%s: cannot follow the loop target that binds %s" % (short(fn), e.id))
+                lname = _view_base(h.ast.iter)
+                if lname is not None and lname not in fn.params and lname in all_defs(fn):
+                    apps = _list_feeds(fn, lname)
+                    if not apps:
+                        raise AnalysisError("%s: nothing is ever appended to %s" % (short(fn), lname))
+                    srcs = []
+                    for c in apps:
+                        x = c.args[0]
+                        if k is None:
+                            el = x
+                        elif isinstance(x, ast.Tuple) and len(x.elts) == len(tgt.elts) \
+                                and not any(isinstance(y, ast.Starred) for y in x.elts):
+                            el = x.elts[k]
+                        else:
+                            raise AnalysisError("%s: %s.append(%s) does not match the loop target" % (short(fn), lname, src(fn, x)))
+                        srcs.append((_cfg_node_of_strict(fn, c), el))
+                    hit = (h.id, srcs)
+        per.append(hit)
+    alts = [([], {})]
+    for e, hit in zip(exprs, per):
+        nxt = []
+        for (pairs, chosen) in alts:
+            if hit is None:
+                nxt.append((pairs + [(node, e)], chosen))
+                continue
+            hid, srcs = hit
+            if hid in chosen:
+                nxt.append((pairs + [srcs[chosen[hid]]], chosen))
+            else:
+                for i, s in enumerate(srcs):
+                    ch = dict(chosen)
+                    ch[hid] = i
+                    nxt.append((pairs + [s], ch))
+        alts = nxt
+    out = []
+    for (pairs, _c) in alts:
+        if depth > 0 and any(p[0] is not node for p in pairs):
+            # an element may itself have been carried through an earlier list
+            nodes_ = {id(p[0]) for p in pairs}
+            if len(nodes_) == 1:
+                for sub in carried_sources(fn, pairs[0][0], [p[1] for p in pairs], depth - 1):
+                    out.append(sub)
+                continue
+        out.append(pairs)
+    return out
+
+
+def _cfg_node_of_strict(fn, call):
+    n = _cfg_node_of(fn, call)
+    if n is None:
+        raise AnalysisError("call not found in CFG of %s" % fn.qual)
+    return n
+
+
+def _index_selection(fn, g, comp, cparam):
+    """[l for (i, l) in enumerate(L) if i not in C] with C = [i for (i, l) in enumerate(L) if l.is_cancel_secret(secret)]
+    (the only binding of C): exactly the leases matching the cancel secret leave the list."""
+    def enum_of(gen):
+        if isinstance(gen.target, ast.Tuple) and len(gen.target.elts) == 2 and all(isinstance(t, ast.Name) for t in gen.target.elts) \
+                and isinstance(gen.iter, ast.Call) and call_name(gen.iter) == "enumerate" and len(gen.iter.args) == 1 \
+                and not gen.iter.keywords and isinstance(gen.iter.args[0], ast.Name) and not gen.is_async:
+            return gen.target.elts[0].id, gen.target.elts[1].id, gen.iter.args[0].id
+        return None
+    e1 = enum_of(g)
+    if e1 is None or len(g.ifs) != 1 or len(comp.generators) != 1:
+        return False
+    i1, l1, seq1 = e1
+    cond = g.ifs[0]
+    if not (isinstance(comp.elt, ast.Name) and comp.elt.id == l1 and isinstance(cond, ast.Compare) and len(cond.ops) == 1
+            and isinstance(cond.ops[0], ast.NotIn) and isinstance(cond.left, ast.Name) and cond.left.id == i1
+            and isinstance(cond.comparators[0], ast.Name)):
+        return False
+    cname = cond.comparators[0].id
+    ds = all_defs(fn).get(cname) or []
+    if len(ds) != 1 or not isinstance(ds[0], (ast.ListComp, ast.SetComp)) or len(ds[0].generators) != 1 or cname in fn.params:
+        return False
+    # the index collection must not be changed afterwards (only read)
+    for x in ast.walk(fn.node):
+        if isinstance(x, ast.Attribute) and isinstance(x.value, ast.Name) and x.value.id == cname:
+            return False
+        if isinstance(x, ast.Subscript) and isinstance(x.value, ast.Name) and x.value.id == cname and not isinstance(x.ctx, ast.Load):
+            return False
+        if isinstance(x, ast.AugAssign) and isinstance(x.target, ast.Name) and x.target.id == cname:
+            return False
+    g2 = ds[0].generators[0]
+    e2 = enum_of(g2)
+    if e2 is None or len(g2.ifs) != 1:
+        return False
+    i2, l2, seq2 = e2
+    c2 = g2.ifs[0]
+    return seq2 == seq1 and isinstance(ds[0].elt, ast.Name) and ds[0].elt.id == i2 and isinstance(c2, ast.Call) \
+        and attr_path(c2.func) == "%s.is_cancel_secret" % l2 and len(c2.args) == 1 and not c2.keywords \
+        and attr_path(c2.args[0]) == cparam
+
+
 class _Handle:
     """One place where a buffered, writable file object on the container is created."""
     def __init__(self, fn, node, call, kind, names=(), attrs=()):
@@ -451,11 +684,47 @@ def run(ctx: Context):
             h = enclosing_loop(cfg, n)
             c = calls_at(n, "_write_lease_record")[0]
             ok = h is not None and isinstance(h.ast.iter, ast.Call) and call_name(h.ast.iter) == "enumerate" \
-                and len(h.ast.iter.args) == 1 and isinstance(h.ast.iter.args[0], ast.Name)
+                and len(h.ast.iter.args) == 1 and isinstance(h.ast.iter.args[0], ast.Name) and not h.ast.iter.keywords
+            surv_name = h.ast.iter.args[0].id if ok else None
+            if not ok and h is not None and isinstance(h.ast.iter, ast.Call) and call_name(h.ast.iter) == "enumerate":
+                # only the tail is rewritten: enumerate(S[k:], k) puts S[j] into slot j for every j >= k (the records in
+                # front of slot k are left where they are); the start of the numbering must be the start of the slice
+                ea = h.ast.iter
+                seq = ea.args[0] if ea.args else None
+                start = ea.args[1] if len(ea.args) == 2 and not ea.keywords else (
+                    kwarg(ea, "start") if len(ea.args) == 1 and len(ea.keywords) == 1 else None)
+                if isinstance(seq, ast.Subscript) and isinstance(seq.value, ast.Name) and isinstance(seq.slice, ast.Slice) \
+                        and seq.slice.lower is not None and seq.slice.upper is None and seq.slice.step is None \
+                        and start is not None and fnorm.norm(h, start) == fnorm.norm(h, seq.slice.lower):
+                    ok = True
+                    # ... and no cancelled lease may lie in front of slot k: k is the first (smallest) index of the
+                    # ordered list of indices of the leases matching the cancel secret
+                    lo = fnorm.resolve(h, seq.slice.lower)
+                    base = None
+                    if isinstance(lo, ast.Subscript) and isinstance(lo.value, ast.Name) and isinstance(lo.slice, ast.Constant) \
+                            and lo.slice.value == 0 and type(lo.slice.value) is int:
+                        base = lo.value.id
+                    elif isinstance(lo, ast.Call) and call_name(lo) == "min" and len(lo.args) == 1 and isinstance(lo.args[0], ast.Name) \
+                            and not lo.keywords:
+                        base = lo.args[0].id
+                    bds = (all_defs(fn).get(base) or []) if base else []
+                    good = len(bds) == 1 and isinstance(bds[0], ast.ListComp) and len(bds[0].generators) == 1
+                    if good:
+                        bg = bds[0].generators[0]
+                        good = isinstance(bg.target, ast.Tuple) and len(bg.target.elts) == 2 and isinstance(bg.iter, ast.Call) \
+                            and call_name(bg.iter) == "enumerate" and len(bg.iter.args) == 1 and not bg.iter.keywords \
+                            and isinstance(bds[0].elt, ast.Name) and attr_path(bg.target.elts[0]) == bds[0].elt.id \
+                            and len(bg.ifs) == 1 and isinstance(bg.ifs[0], ast.Call) and call_tail(bg.ifs[0]) == "is_cancel_secret"
+                    if not good:
+                        raise AnalysisError("%s: only the records from slot %s on are rewritten; cannot tell that no cancelled "
+                                            "lease lies in front of it; extend the rule" % (short(fn), src(fn, seq.slice.lower)))
+                if isinstance(seq, ast.Subscript) and isinstance(seq.value, ast.Name):
+                    surv_name = seq.value.id
             if ok:
                 tn = loop_target_names(h.ast)
                 ok = len(tn) == 2 and len(c.args) == 3 and [attr_path(a) for a in c.args[1:]] == tn
-                survivors = h.ast.iter.args[0].id
+            if surv_name:
+                survivors = surv_name
             r.require(ok, fn, fn.loc(c), "surviving leases are not rewritten in order as _write_lease_record(f, i, lease) "
                       "for i, lease in enumerate(<survivors>): %s" % src(fn, c))
             if ok:
@@ -514,6 +783,8 @@ def run(ctx: Context):
                         and call_tail(cond.operand) == "is_cancel_secret" and attr_path(cond.operand.func) == "%s.is_cancel_secret" % elt \
                         and len(cond.operand.args) == 1 and attr_path(cond.operand.args[0]) == cparam:
                     pass                                # [l for l in <list> if not l.is_cancel_secret(secret)]
+                elif _index_selection(fn, g, comp, cparam):
+                    pass                                # [l for (i, l) in enumerate(L) if i not in <indices of matching leases>]
                 else:
                     raise AnalysisError("%s: cannot see which leases %s keeps; extend the rule" % (short(fn), src(fn, comp)))
         want_len = "len(%s)" % survivors if survivors else None
@@ -545,7 +816,7 @@ def run(ctx: Context):
             if not un:
                 raise AnchorVanished("%s no longer removes a share without leases" % short(f_))
             if f_ is fn:
-                zero_ok = {want_len}
+                zero_ok = {want_len, survivors}       # `not len(S)` / `len(S) == 0` / `not S` (S is a list)
             else:
                 # mutable: a counter that every lease not matching the cancel secret increments
                 zero_ok = set()
@@ -697,11 +968,13 @@ def run(ctx: Context):
             if inc is None or node is None:
                 raise AnalysisError("%s: cannot see where %s puts the share being written" % (short(cs.fn), src(cs.fn, cs.call)))
             cno = FlowNorm(cs.fn)
-            ie = cno.resolve(node, inc)
-            ok = isinstance(ie, ast.Call) and call_name(ie) == "os.path.join" and len(ie.args) >= 2 \
-                and cno.norm(node, ie.args[0]) == "self.incomingdir" and cs.fn.cls is not None and init.cls in cs.fn.cls.mro()
-            r.require(ok, cs.fn, cs.loc, "the share being written is created at %s, not below self.incomingdir: a partial "
-                      "upload left by a crash is not discarded at the next start" % src(cs.fn, ie))
+            # the path may have been computed in an earlier loop and carried here through a list of tuples
+            for ((inode, inc_x),) in carried_sources(cs.fn, node, [inc]):
+                ie = cno.resolve(inode, inc_x)
+                ok = isinstance(ie, ast.Call) and call_name(ie) == "os.path.join" and len(ie.args) >= 2 \
+                    and cno.norm(inode, ie.args[0]) == "self.incomingdir" and cs.fn.cls is not None and init.cls in cs.fn.cls.mro()
+                r.require(ok, cs.fn, cs.loc, "the share being written is created at %s, not below self.incomingdir: a partial "
+                          "upload left by a crash is not discarded at the next start" % src(cs.fn, ie))
         if n_bw == 0:
             raise AnchorVanished("no BucketWriter construction found")
 
